@@ -8,7 +8,7 @@ V = os.path.dirname(os.path.dirname(os.path.abspath(__file__)))
 ALSO = {"C04_d": ["C10"], "C09_d": ["C02"], "C14_c": ["C13", "C15"], "C14_d": ["C15"], "C01_c": ["C14"], "C08_c": ["C09"], "C08_d": ["C15"], "C15_c": ["C08"],
         "C15_d": ["C14", "C16"], "C10_c": ["C04"],
         "C02_a": ["C09"], "C02_b": ["C09"], "C03_a": ["C09"], "C14_a": ["C09"], "C08_b": ["C09"], "C15_a": ["C09", "C16"], "C05_b": ["C11"],
-        "C13_a": ["C15"], "C16_a": ["C15", "C13"]}
+        "C13_a": ["C15"], "C16_a": ["C15", "C13"], "C11_f": ["C05"], "C15_f": ["C14", "C13"]}
 def sh(cmd, **kw): return subprocess.run(cmd, shell=True, capture_output=True, text=True, **kw)
 def main():
     names = sys.argv[1:] or sorted(d for d in os.listdir(os.path.join(V, "seeded")) if os.path.isdir(os.path.join(V, "seeded", d)))
